@@ -383,7 +383,13 @@ func (r *sessRunner) history(n int, h sessHist) []sessEvent {
 	if !ok {
 		return nil
 	}
-	in, ev := put("Input"+h.SrcExt, d1) // capitals in the name: only the extension is case-insensitive
+	// capitals in the name: only the extension is case-insensitive; dots in the name: the extension is what follows
+	// the last one
+	inName, outName := "Input", "Out"
+	if n%3 == 1 {
+		inName, outName = "Input.01.en", "Out.v2.final"
+	}
+	in, ev := put(inName+h.SrcExt, d1)
 	ev.First = true
 	evs = append(evs, ev)
 	in2 := ""
@@ -399,7 +405,7 @@ func (r *sessRunner) history(n int, h sessHist) []sessEvent {
 		in2, ev2 = put("Second"+strings.ToLower(h.SrcExt), d2)
 		evs = append(evs, ev2)
 	}
-	out := filepath.Join(dir, "Out"+h.DstExt)
+	out := filepath.Join(dir, outName+h.DstExt)
 	if h.Entry == "lib" {
 		ev, s := r.observeOpt(n, in, at, h.Ign)
 		evs = append(evs, ev)
